@@ -1963,3 +1963,32 @@ foo DUPLICATED_TERM;
         assert_eq!(transitions[0].0, "DUPLICATED_TERM");
     }
 }
+
+#[cfg(feature = "verif")]
+pub mod verif_hooks {
+    use super::{DFA, DFAId, Inp, InpId};
+
+    pub fn inp_id_raw(id: InpId) -> u32 {
+        id.0
+    }
+
+    pub fn dfa_id_raw(id: DFAId) -> usize {
+        id.0
+    }
+
+    pub fn all_inputs(dfa: &DFA) -> Vec<(u32, &Inp)> {
+        dfa.inputs.pairs().map(|(id, inp)| (id.0, inp)).collect()
+    }
+
+    pub fn subdfa(dfa: &DFA, id: DFAId) -> &DFA {
+        dfa.subdfas.lookup(id)
+    }
+
+    pub fn num_subdfas(dfa: &DFA) -> usize {
+        dfa.subdfas.store.len()
+    }
+
+    pub fn subdfa_by_index(dfa: &DFA, index: usize) -> &DFA {
+        dfa.subdfas.store.get_index(index).unwrap()
+    }
+}
